@@ -6,16 +6,26 @@ from . import enginegen as eg
 from . import engine_suite as es
 
 
+def scope(sc):
+    """the packages the LAST package of the scenario can know about: itself and its (transitive) imports"""
+    k = len(sc.pkgs) - 1
+    return sorted(set(sc.pkgs[k]["imports"]) | {k})
+
+
 def mono(sc):
+    """whole-graph analysis of what the last package can know: one package holding every annotation and trigger
+    of the last package and of the packages it (transitively) imports"""
+    ks = scope(sc)
     sites = [(s[0], s[1], s[2], 0) for s in sc.sites]
-    annots = [a for p in sc.pkgs for a in p["annots"]]
-    trigs = [t for p in sc.pkgs for t in p["trigs"]]
+    annots = [a for k in ks for a in sc.pkgs[k]["annots"]]
+    trigs = [t for k in ks for t in sc.pkgs[k]["trigs"]]
     return eg.Scenario(sites, [dict(imports=[], annots=annots, trigs=trigs)])
 
 
 def pending_controlled(sc, res):
     """hypothesis of the proved/claimed domain: no package leaves a controlled trigger un-activated"""
-    for p, r in zip(sc.pkgs, res):
+    for k in scope(sc):
+        p, r = sc.pkgs[k], res[k]
         det = {e[0]: e[2] for e in r["map"] if e[1] == "D"}
         for t in p["trigs"]:
             if t[5] >= 0 and det.get(t[5]) != 1:
@@ -25,7 +35,8 @@ def pending_controlled(sc, res):
 
 def downstream_oracle(sc, ra, rb):
     """C06 statement on the real engine's outputs: importer with facts == importer with the full graph."""
-    ca = any(r["conflicts"] for r in ra)
+    ks = scope(sc)
+    ca = any(ra[k]["conflicts"] for k in ks)
     cb = bool(rb["conflicts"])
     if ca != cb:
         return "conflict reported by some package with facts=%s, by whole-graph analysis=%s" % (ca, cb)
@@ -33,7 +44,8 @@ def downstream_oracle(sc, ra, rb):
         return None
     exp = {s[0] for s in sc.sites if s[1]}
     dm = {e[0]: e[2] for e in rb["map"] if e[1] == "D"}
-    for k, r in enumerate(ra):
+    for k in ks:
+        r = ra[k]
         for e in r["map"]:
             if e[1] == "D" and e[0] in exp and dm.get(e[0]) != e[2]:
                 return "package p%d gives exported site %d verdict %d, whole-graph analysis gives %r" % (k, e[0], e[2], dm.get(e[0]))
@@ -54,6 +66,34 @@ def eval_downstream(line_sc):
     if ra is None or rb is None:
         return None, False
     return downstream_oracle(sc, ra, rb[0]), pending_controlled(sc, ra)
+
+
+def probe_pairs(sc, limit=80):
+    """directed search for a failing input: append an importer that plants a nil source at one exported site and a
+    dereference at another, for every ordered pair, and compare analysis through facts with whole-graph analysis"""
+    exp = [x[0] for x in sc.sites if x[1]]
+    n = len(sc.pkgs)
+    cands = []
+    for a in exp:
+        for b in exp:
+            c = sc.copy()
+            c.pkgs.append(dict(imports=list(range(n)), annots=[], trigs=[(9001, eg.A, eg.C, 0, a, -1), (9002, eg.C, eg.A, b, 0, -1)]))
+            cands.append(c)
+    cands = cands[:limit]
+    if not cands:
+        return None
+    rc, a_out, _ = eg.run_impl([c.line() for c in cands], gob=True)
+    rc2, b_out, _ = eg.run_impl([mono(c).line() for c in cands])
+    if rc != 0 or rc2 != 0:
+        return None
+    for c, la, lb in zip(cands, a_out, b_out):
+        ra, rb = eg.parse_result_line(la), eg.parse_result_line(lb)
+        if ra is None or rb is None:
+            continue
+        o = downstream_oracle(c, ra, rb[0])
+        if o and not pending_controlled(c, ra):
+            return c, o
+    return None
 
 
 def parse_scenario_line(line):
@@ -135,16 +175,37 @@ def run(ctx):
             if o:
                 ctx.known_finding(kf["id"], "%s -- still fails: %s" % (kf["what"][:120], o))
 
-    for i in res["mism"][:3] + res["gobdiff"][:2] + panics[:2]:
+    # when the correspondence broke, look for a concrete failing input among the mismatching scenarios first
+    suspects = res["mism"][:40] + res["gobdiff"][:10]
+    found_any = False
+    for i in suspects:
+        sc = scs[i - ne] if i >= ne else None
+        if sc is None or any(eg.parse_result_line(res["impl"][i])[k]["conflicts"] for k in range(len(sc.pkgs))):
+            continue
+        f = probe_pairs(sc)
+        if f:
+            sc2, o = f
+            small = eg.shrink(sc2, lambda c: len(c.pkgs) >= 2 and (lambda r: r[0] is not None and not r[1])(eval_downstream(c)))
+            ctx.violation("export", "C06 fails on the real engine: %s\nminimised:\n%s\nwhole-graph scenario: %s\n" % (
+                eval_downstream(small)[0], small.pretty(), mono(small).line()))
+            found_any = True
+            break
+    for i in ([] if found_any else res["mism"][:3] + res["gobdiff"][:2]) + panics[:2]:
         sc = scs[i - ne] if i >= ne else None
         o = None
         if sc is not None and len(sc.pkgs) >= 2:
             o, pend = eval_downstream(sc)
             if pend:
                 o = None
+        found = None
+        if not o and sc is not None:
+            found = probe_pairs(sc)
+            if found:
+                sc, o = found
         if o:
             small = eg.shrink(sc, lambda c: len(c.pkgs) >= 2 and (lambda r: r[0] is not None and not r[1])(eval_downstream(c)))
-            ctx.violation("export", "C06 fails on the real engine: %s\nminimised:\n%s\noriginal:\n%s" % (eval_downstream(small)[0], small.pretty(), es.describe(i, res, scs, ne, corpus)))
+            ctx.violation("export", "C06 fails on the real engine: %s\nminimised:\n%s\nwhole-graph scenario: %s\noriginal:\n%s" % (
+                eval_downstream(small)[0], small.pretty(), mono(small).line(), es.describe(i, res, scs, ne, corpus)))
         else:
             ctx.violation("correspondence", "model M1 and the real engine disagree on the exported fact / chosen sites (or the gob round trip changes a result, or Export panicked), "
                           "so theorems C06_* no longer speak about the code; downstream equivalence still holds on this scenario.\n" + es.describe(i, res, scs, ne, corpus), found_input=False)
